@@ -164,6 +164,19 @@ def run(rep):
         recs.append({'b': b, 'jumps': rows, 'window': window, 'sites': w.sites_k, 'G': G, 'N': N, 'R': R,
                      'thr': int(math.ceil(cut * cut * N * N)), 'pairs': pairs, 'nsolo': nsolo, 'ncoll': ncoll,
                      'labels': labs, 'spm': spm, 'multi': multi, 'meta': f'{fam} cut={cut:.4f}'})
+    # scale: one long-transit jump overlapping n short jumps of other atoms that do not overlap each other (window 0):
+    # the long jump has exactly n partners, every short jump exactly one
+    for n_part in ([256] if quick else [255, 256, 257, 512]):
+        b += 1
+        w = gen.SiteWorld(rng, 'cubic', 'chol', N=32, n_sites=3, radius=0.5, inner_fraction=1.0)
+        rows = [[0, 0, 1, 0, 10 * n_part + 50]] + [[1 + (k % 3), 1, 2, 10 * k + 5, 10 * k + 6] for k in range(n_part)]
+        tr = world_tr(w, rng)
+        col = Collective(jumps=make_jumps(tr, rows), sites=w.structure, lattice=w.lattice, max_steps=0, max_dist=1000.0)
+        pairs, nsolo, ncoll = observe(col)
+        labs, spm, multi = aggregations(col, list(w.structure.labels))
+        recs.append({'b': b, 'jumps': rows, 'window': 0, 'sites': w.sites_k, 'G': w.G, 'N': 32, 'R': gen.image_range(w.G),
+                     'thr': 2 ** 30, 'pairs': pairs, 'nsolo': nsolo, 'ncoll': ncoll, 'labels': labs, 'spm': spm, 'multi': multi,
+                     'meta': f'one jump with {n_part} partners'})
     # realised histories through Jumps.collective()
     for b in range(n_cases, n_cases + (6 if quick else 60)):
         fam = fams[b % len(fams)]
